@@ -6,6 +6,7 @@ import QM.Parser
 import QM.Path
 import QM.Port
 import QM.Lookup
+import QM.Proc
 
 /-! Line protocol of the model driver: the same operations as `src/verif_driver.rs` (answered by the
     model of the implementation) plus `spec_*` operations (answered by the specifications, used as
@@ -96,6 +97,46 @@ partial def unitScript (u : MM.SUnit) (out : List String) : List String → Stri
   | "dump" :: r => unitScript u (dumpUnit u :: out) r
   | _ => "bad-op"
 
+/-- Rust variant name of a conversion error (`err_class` in the hook driver prints the Debug name) -/
+def errVariant : Cv.Err → String
+  | .unknownKey _ => "UnknownKey" | .noImageOrRootfs => "InvalidImageOrRootfs" | .imageAndRootfs => "InvalidImageOrRootfs"
+  | .invalidKillMode _ => "InvalidKillMode" | .invalidServiceType _ => "InvalidServiceType" | .invalidPort _ => "InvalidPortFormat"
+  | .internal _ _ => "InternalQuadletError" | .resourceName _ => "InvalidResourceNameIn" | .networkOptions => "InvalidNetworkOptions"
+  | .invalidGroup => "InvalidGroup" | .remap _ => "InvalidRemapUsers" | .sourceNotFound _ => "SourceNotFound"
+  | .imageNotFound _ => "ImageNotFound" | .podNotFound _ => "PodNotFound" | .invalidPod _ => "InvalidPod"
+  | .mountFormat _ => "InvalidMountFormat" | .noYaml => "NoYamlKeySpecified" | .noImageTag => "NoImageTagKeySpecified"
+  | .noWdNorFile => "NoSetWorkingDirectoryNorFileKeySpecified" | .relativeFile => "InvalidRelativeFile"
+  | .setWd _ => "InvalidSetWorkingDirectory" | .unsupported _ _ => "UnsupportedValueForKey" | .subnet _ => "InvalidSubnet"
+  | .deviceType => "InvalidDeviceType" | .deviceOptions => "InvalidDeviceOptions" | .imageMandatory => "InvalidImageOrRootfs"
+  | .noFileKey => "NoFileKeySpecified" | .badValue => "Parsing"
+
+def supportedExt (ty : Str) : Bool := Gen.SUPPORTED_EXTENSIONS.contains ty
+
+/-- `convert <is_user> <order> (<path> <text>)*` as `run_convert` in src/verif_driver.rs -/
+def convertOp (isUser : Bool) (order : List Nat) (files : List (Str × Str)) : String :=
+  let loaded : List (Except String Cv.QUnit) := files.map fun (p, t) =>
+    match Parse.parse parseEnv t with
+    | .error _ => .error "loaderr Unit"
+    | .ok u => if supportedExt (Cv.extension (Cv.fileName p)) then .ok { path := p, unit := u } else .error "loaderr UnsupportedQuadletType"
+  let qs := loaded.filterMap fun r => match r with | .ok q => some q | .error _ => none
+  let t0 : Cv.Tbl := { infos := qs.map fun q => (q.name, Cv.prefill q), toStart := [] }
+  let (_, outs, oom) := order.foldl (fun (acc : Cv.Tbl × List String × Bool) idx =>
+    let (t, outs, oom) := acc
+    match (loaded[idx]? : Option (Except String Cv.QUnit)) with
+    | none => (t, outs ++ ["bad-index"], oom)
+    | some (Except.error e) => (t, outs ++ [e], oom)
+    | some (Except.ok q) =>
+      let (t', o) := Cv.convertStepU isUser t q
+      match o with
+      | .ok svc => (t', outs ++ ["svc " ++ hexe (Cv.serviceFileName ((t.get q.name).getD (Cv.prefill q))) ++ " " ++ dumpUnit svc], oom)
+      | .err e => (t', outs ++ ["err " ++ errVariant e], oom)
+      | .outOfModel => (t', outs, true)) (t0, [], false)
+  if oom then "out-of-model" else "ok " ++ " | ".intercalate outs
+
+def pairsOf : List String → List (Str × Str)
+  | a :: b :: r => (hexd a, hexd b) :: pairsOf r
+  | _ => []
+
 def step (line : String) : String :=
   match line.splitOn "\t" with
   | "quote_words" :: ws => "ok " ++ hexe (P.quoteWords (ws.map hexd))
@@ -109,6 +150,8 @@ def step (line : String) : String :=
       | .ok u => "ok " ++ dumpUnit u
       | .error _ => "err"
   | "unit" :: script => unitScript [] [] script
+  | "convert" :: iu :: ord :: rest =>
+      convertOp (iu == "1") (if ord == "-" then [] else (ord.splitOn ",").map String.toNat!) (pairsOf rest)
   | ["clean", a] => "ok " ++ hexe (Pth.cleaned (hexd a))
   | ["port_range", a] => "ok " ++ toString (Port.isPortRange (hexd a))
   -- specifications
